@@ -21,6 +21,12 @@ P = {
              note="Repetition: positions identified with 64-bit keys (collisions excluded as the property states); assumes three game-history facts (clock steps, parity, no reset between equal positions) that follow from C02."),
  "C01": dict(ref="§4 C01", text="lemma L1: each of the four generators (pawns, king, officers, castling) in each mode emits an arbitrary target move exactly [rules allow it and it is in the generator's class] times, on a fully symbolic well-formed position, with the promotions-as-non-quiet switch symbolic (512 cases = generator x mode x target origin square; quick 128 by seed); L2 legality filter = C09; composition/perft lemmas see level_note",
              note="Membership formulation with PushBack replaced by a counting observer; bit-scan loops executed as 64 guarded iterations (licensed by C18's PopLsb lemma); sliding lookups summarised by C18. King-capture targets additionally assume the side not to move is not in check (legal positions). Perft equality follows from L1+L2+C02/C03 by induction on depth; the perft driver itself is not yet encoded."),
+ "C08": dict(ref="§4 C08", text="quick has-legal-move test: with IsLegalMove replaced by an observer, every candidate HasLegalMove tries is a pseudo-legal move (up to promotion piece), every pseudo-legal non-castling move (arbitrary target; origin square = case) is tried, and the answer is true exactly when a tried candidate is judged legal (uninterpreted verdicts) - on a fully symbolic well-formed position; with C09 (IsLegalMove == rules) this is HasLegalMove == (legal move list non-empty)",
+             note="PARTIAL: the phased on-demand generator state machine (PV first, killers, stage order, reuse across positions) and evasion-mode generation are NOT encoded in this session - only the has-legal-move clause and (via C01) the batch generators. Origin squares: 64 cases, quick 4 by seed."),
+ "C13": dict(ref="§4 C13", text="time budget (real setupTimeControl incl. its float64 arithmetic): budget >= 0, <= mover's remaining clock time, engine's moves-left estimate >= 15 when none announced, per-move share in range, moves*share <= remaining + moves*increment; times/increments symbolic < 2^44 ns, moves-to-go 1..64 and game phase 0..24 case-split (90 cases; quick 12); fixed move time: budget <= move time",
+             note="PARTIAL: the clause budget <= per-move share (two float conversions and a product) and the monolithic moves*budget bound run in the thorough tier only (30-110 s per case, solver portfolio). Integer division by constants is abstracted by its defining inequalities. NOT encoded: timer goroutine / wall-clock promptness, depth-limited iteration count, node-limit overshoot, searchmoves (the engine never consults Limits.Moves and the UCI token is parsed as 'moves': see DESIGN §6)."),
+ "C15": dict(ref="§4 C15", text="Evaluate on a symbolic well-formed position with arbitrary (bounded) material/piece-square totals: value independent of the evaluator instance and of earlier evaluations (instance fields and the package-level scratch score arbitrary), position unchanged, insufficient material => 0, colour-mirror symmetry; lazy-evaluation and advanced-piece-evaluation switches case-split; value tables colour-symmetric (data obligation)",
+             note="(*Score).ValueFromScore is summarised by an uninterpreted function that is odd by construction; oddness of the real float64 code is a thorough-tier obligation (VH_C15_value_from_score_odd_T). Quick: purity for 3 of 4 switch combinations, symmetry for the default switches. Known findings: tempo bonus sign for Black, four asymmetric piece-square entries. History independence follows from C03/C04 (the value is a function of fields those restore / maintain)."),
 }
 NA = {}
 for i in range(1,21):
